@@ -42,8 +42,11 @@ def _rw_cfg(R, W, P, invariants="TypeOK Mutex ReleaseHeld CountersOK", props="Te
 
 def _instances(tier):
     if tier == "thorough":
-        return [(2, 2, 1, True), (2, 2, 2, True), (3, 2, 1, True), (2, 3, 1, True), (3, 3, 1, True), (3, 2, 2, False)]
-    return [(2, 2, 1, True), (2, 1, 2, True), (2, 2, 2, False), (3, 2, 1, False)]
+        return [(2, 2, 1, True), (1, 1, 3, True), (2, 1, 3, True), (1, 2, 2, True), (2, 2, 2, True), (3, 2, 1, True), (2, 3, 1, True),
+                (3, 3, 1, True), (3, 2, 2, False)]
+    # (what a thread leaves behind after a complete acquire/release cycle - e.g. per-thread state - only shows in its NEXT
+    #  cycle: every walk has instances in which each thread runs two, in the thorough tier three, cycles)
+    return [(2, 2, 1, True), (2, 1, 2, True), (1, 2, 2, True), (2, 2, 2, False), (3, 2, 1, False)]
 
 
 LT_BASE = "CONSTANTS N = %d  EARLY_PUBLISH = %s  SPLIT_ASSIGN = %s  TORN_READ = %s  LOCKED = \"%s\"\nSPECIFICATION Spec\n"
@@ -171,6 +174,8 @@ def _shape(rwmod):
             named = real._resolve()
             made = list(real.sched.locks)
             unc = sorted(getattr(rwmod.threading, "uncontrolled", ()))
+            ident = sorted(set(getattr(rwmod.threading, "used", ())) & {"local", "get_ident", "get_native_id", "current_thread"})
+            tls = blackbox.find_thread_locals(real.rw, rwmod)
         finally:
             real.close(abandon=True)
     except (sched.StructureDiffers, MachineryError, AttributeError, TypeError) as e:
@@ -185,6 +190,8 @@ def _shape(rwmod):
         return "the constructor makes %d synchronisation objects, the model has 5" % len(made)
     if unc:
         return "uses threading.%s" % ", threading.".join(unc)
+    if tls or ident:
+        return "keeps per-thread state (%s)" % ", ".join(["threading.local object %s" % type(o).__name__ for o in tls] + ["threading." + n for n in ident])
     return None
 
 
@@ -212,7 +219,12 @@ def _blackbox(rep, tier, wd, rwmod, why):
     is the expected one: the exploration is additional evidence) or the difference that made the walk impossible."""
     path = rwmod.__file__
     thorough = tier == "thorough"
-    mixes = [(2, 1, 1), (1, 2, 1)] + ([(2, 2, 1), (2, 1, 2), (1, 2, 2)] if thorough else [])
+    # every thread runs at least two (thorough: three) cycles in some mix: state a thread keeps from one cycle to the next
+    mixes = [(1, 1, 3), (2, 1, 1), (1, 2, 1)]
+    if why is not None or thorough:         # (on the expected structure the white-box walk covers these in the quick tier)
+        mixes += [(2, 1, 2), (1, 2, 2)]
+    if thorough:
+        mixes += [(2, 2, 1), (2, 1, 3)]
     budget = 900.0 if thorough else 240.0
     tasks = [(path, R, W, P, "real", budget) for (R, W, P) in mixes]
     src = open(path).read()
@@ -1119,8 +1131,8 @@ def _lazy_part(rep, tier, wd, J):
             vacuity.append("thread A was never stopped inside a callee (numbertheory.inverse_mod) in %s" % gname)
         if gname.endswith("/intr") and "Interrupt" not in g["A_ended_with"]:
             vacuity.append("thread A was never interrupted in %s" % gname)
-        if gname.endswith("/fail") and g["A_ended_with"] != ["AssertionError"]:
-            vacuity.append("the failing multiplication did not fail with AssertionError in %s: %s" % (gname, g["A_ended_with"]))
+        if gname.endswith("/fail") and not g["A_ended_with"]:      # AssertionError; under `python -O` (asserts compiled away) TypeError
+            vacuity.append("the multiplication of a generator without order did not fail in %s" % gname)
 
     # ---- C->S: validate (one TLC configuration per table length)
     n_real = len(evs)
